@@ -208,13 +208,13 @@ def r1_totality(ctx, res):
                     res.inst(f'S3:{f.key}:{norm(node)}', f.module.loc(node), 'or-fallback')
     # constant keys of ids
     disp = None
-    for n in walk_no_nested(v.node):
-        if isinstance(n, (ast.Assign, ast.AnnAssign)) and isinstance(n.value, ast.Dict):
-            tg = n.targets[0] if isinstance(n, ast.Assign) else n.target
-            if isinstance(tg, ast.Name) and tg.id == 'ids':
-                disp = {k.value for k in n.value.keys if isinstance(k, ast.Constant)}
+    for n in [x for g in mod.funcs.values() for x in walk_no_nested(g.node)]:
+        if isinstance(n, ast.Return) and isinstance(n.value, ast.Dict) or isinstance(n, (ast.Assign, ast.AnnAssign)) and isinstance(n.value, ast.Dict):
+            ks = {k.value for k in n.value.keys if isinstance(k, ast.Constant)}
+            if ks and all(isinstance(x, ast.Call) and norm(x.func) == 'Counter' for x in n.value.values):
+                disp = ks
     if disp is None:
-        raise AnalysisError('anchor vanished: `ids` display in validate()')
+        raise AnalysisError('anchor vanished: the display of id Counters in validate()')
     for f in funcs.values():
         for node in walk_no_nested(f.node):
             if isinstance(node, ast.Subscript) and isinstance(node.value, ast.Name) and node.value.id == 'ids' \
@@ -272,25 +272,29 @@ def r2_registry(ctx, res):
             if want and d != want:
                 res.find(k2 + ':message', mod.loc(f.node), f'{code} is documented as "{documented.get(code)}" but bound to the check '
                                                             f'"{ast.get_docstring(f.node)}"')
-    sel = ctx.repo.func('validate', '_select_checks')
-    key = 'select-checks'
-    src = norm(sel.node)
-    res.inst(key, mod.loc(sel.node), 'code in selectset or code[0] in selectset')
-    if 'for code, func in _codes.items()' not in src or 'if code in selectset or code[0] in selectset' not in src:
-        res.find(key, mod.loc(sel.node), '_select_checks no longer keeps a check iff its code or its category letter is selected')
-    v = ctx.repo.func('validate', 'validate')
+    from ..speccheck import view, expect
+    expect(res, 'select-checks', view(ctx, 'validate', '_select_checks'), [
+        ('call', "#1.append(($1[0], $1[1], $1[1].__doc__ or ''))", ('$1[0] in set(select) or $1[0][0] in set(select)',), ('for _codes.items()',), 'exact'),
+        ('return', '#1'),
+    ], '_select_checks keeps a check iff its code or its category letter is selected, with its docstring as the message')
+    vv = view(ctx, 'validate', 'validate')
     key = 'report-loop'
-    loops = [n for n in walk_no_nested(v.node) if isinstance(n, ast.For) and norm(n.iter) == 'checks']
-    res.inst(key, mod.loc(v.node), f'{len(loops)} loops over the selected checks')
-    ok = len(loops) == 1 and any(isinstance(s, ast.Assign) and norm(s.targets[0]) == 'report[code]' and "'items': func(lex, ids)" in norm(s.value)
-                                 for s in loops[0].body)
-    if not ok:
-        res.find(key, mod.loc(v.node), 'validate() no longer builds report[code] = {message, items: func(lex, ids)} in one loop over the '
-                                       'selected checks')
+    stores = [r for r in vv.rows if r[0] == 'store' and r[1].startswith("#2[$1[0]] = {'message': $1[2], 'items': $1[1](")]
+    res.inst(key, vv.loc(), f'{len(stores)} report stores')
+    if len(stores) != 1 or stores[0][3] != ('for _select_checks(select)',) or stores[0][2] != frozenset({"not lex.get('extends')"}) \
+            or not vv.find('return', '#2', ("not lex.get('extends')",)):
+        res.find(key, vv.loc(), 'validate() no longer builds report[code] = {message, items: check(lex, ids)} for every selected check '
+                                '(_select_checks(select)) and returns that report')
+    v = ctx.repo.func('validate', 'validate')
     for t in [n for n in walk_no_nested(v.node) if isinstance(n, ast.Try)]:
         res.find(key + ':try', mod.loc(t), 'validate() wraps checks in try/except: failures would be hidden instead of reported')
-    if 'checks = _select_checks(select)' not in norm(v.node):
-        res.find(key + ':select', mod.loc(v.node), 'validate() no longer selects its checks with _select_checks(select)')
+    key = 'ids-table'
+    ids = "{'entry': Counter((_1['id'] for _1 in LEX.get('entries', []))), 'sense': Counter((_3['id'] for _2 in LEX.get('entries', []) " \
+          "for _3 in _2.get('senses', []))), 'synset': Counter((_4['id'] for _4 in LEX.get('synsets', [])))}"
+    res.inst(key, vv.loc(), 'entry / sense / synset id counters passed to every check')
+    if stores and not any(ids.replace('LEX', lx) in stores[0][1] for lx in ('cast(lmf.Lexicon, lex)', 'lex')):
+        res.find(key, vv.loc(), 'the checks no longer receive {entry, sense, synset} id Counters built from the entries, their senses and '
+                                'the synsets of the lexicon')
 
 
 def r3_relation_tables(ctx, res):
@@ -360,45 +364,19 @@ def r4_rejected_by_add(ctx, res):
 def r5_reference_predicates(ctx, res):
     """E204 / E401 test references exactly the way the importer resolves them: a sense's synset and a synset relation's
     target must be synset ids; a sense relation's target a sense id or a synset id (the importer's three-way split)."""
-    f = ctx.repo.func('validate', '_missing_relation_target')
-    loc = f.module.loc(f.node)
-    comps = [n for n in walk_no_nested(f.node) if isinstance(n, (ast.DictComp, ast.GeneratorExp, ast.ListComp, ast.SetComp))]
-    seen = {}
-    for c in comps:
-        its = [norm(g.iter) for g in c.generators]
-        conds = ' and '.join(norm(x) for g in c.generators for x in g.ifs)
-        for kind in ('_sense_relations(lex)', '_synset_relations(lex)'):
-            if kind in its:
-                seen[kind] = conds
-        if not any(k in its for k in ('_sense_relations(lex)', '_synset_relations(lex)')) and c.generators:
-            seen.setdefault('other:' + its[0], conds)
-    key = 'E401:synset-relations'
-    res.inst(key, loc, seen.get('_synset_relations(lex)', 'missing'))
-    c = seen.get('_synset_relations(lex)')
-    if c is None or "ids['sense']" in c or "r['target'] not in ids['synset']" not in c:
-        res.find(key, loc, f'E401 tests synset-relation targets with `{c}` (comprehensions found: {seen}); a synset relation must point to a '
-                           f'synset id - the importer resolves it in `synsets` only, so a target that is a sense id is rejected by add() '
-                           f'but would not be reported')
-    key = 'E401:sense-relations'
-    res.inst(key, loc, seen.get('_sense_relations(lex)', 'missing'))
-    c = seen.get('_sense_relations(lex)')
-    if c is None or "r['target'] not in ids['sense']" not in c or "r['target'] not in ids['synset']" not in c:
-        res.find(key, loc, f'E401 tests sense-relation targets with `{c}`; expected "neither a sense id nor a synset id" (the importer\'s split)')
-    g = ctx.repo.func('validate', '_missing_synset')
-    key = 'E204:predicate'
-    s2 = norm(g.node)
-    res.inst(key, g.module.loc(g.node), "s['synset'] not in ids['synset']")
-    if "synset_ids = ids['synset']" not in s2 or "if s['synset'] not in synset_ids" not in s2:
-        res.find(key, g.module.loc(g.node), 'E204 no longer tests the synset of every sense against the synset ids of the lexicon')
-    # the ids table is built from entries / senses / synsets
-    v = ctx.repo.func('validate', 'validate')
-    key = 'ids-table'
-    s3 = norm(v.node)
-    res.inst(key, v.module.loc(v.node), 'entry / sense / synset id counters')
-    for needle in ("'entry': Counter((entry['id'] for entry in _entries(lex)))", "'synset': Counter((synset['id'] for synset in _synsets(lex)))",
-                   "'sense': Counter((sense['id'] for entry in _entries(lex) for sense in _senses(entry)))"):
-        if needle not in s3:
-            res.find(key + ':' + needle[:10], v.module.loc(v.node), f'validate() no longer builds `{needle[:40]}...`')
+    from ..speccheck import view, expect
+    item = "#1[$1[0]['id']] = {'type': $1[1]['relType'], 'target': $1[1]['target']}"
+    expect(res, 'E401', view(ctx, 'validate', '_missing_relation_target'), [
+        ('store', item, ("$1[1]['target'] not in ids['sense']", "$1[1]['target'] not in ids['synset']"), ('for _sense_relations(lex)',), 'exact'),
+        ('store', item, ("$1[1]['target'] not in ids['synset']",), ('for _synset_relations(lex)',), 'exact'),
+        ('return', '#1'),
+    ], 'E401 lists a sense relation whose target is neither a sense id nor a synset id, and a synset relation whose target is not a synset '
+       'id (the importer resolves synset-relation targets in `synsets` only)')
+    expect(res, 'E204', view(ctx, 'validate', '_missing_synset'), [
+        ('store', "#1[$2['id']] = {'synset': $2['synset']}", ("$2['synset'] not in ids['synset']",),
+         ("for lex.get('entries', [])", "for $1.get('senses', [])"), 'exact'),
+        ('return', '#1'),
+    ], 'E204 lists every sense whose synset is not a synset id of the lexicon')
 
 
 BLANK_CHECKS = {'W305': ('_blank_synset_definition', 'definitions'), 'W306': ('_blank_synset_example', 'examples')}
@@ -426,9 +404,12 @@ def r6_blank_predicates(ctx, res):
                                                f'whitespace only is blank but is no longer reported (the condition must go through '
                                                f'strip()/isspace())')
         key = f'blank-domain:{code}'
-        src = norm(f.node)
-        res.inst(key, f.module.loc(f.node), f'any(... for x in ss.get({lst!r}, [])) for ss in _synsets(lex)')
-        if 'any(' not in src or f"ss.get('{lst}', [])" not in src.replace('"', "'") or 'for ss in _synsets(lex)' not in src:
+        from ..speccheck import view
+        v = view(ctx, 'validate', fname)
+        st = [r for r in v.rows if r[0] == 'store' and r[1] == "#1[$1['id']] = {}"]
+        res.inst(key, f.module.loc(f.node), f'{[sorted(r[2]) for r in st]}')
+        if len(st) != 1 or st[0][3] != ("for lex.get('synsets', [])",) or len(st[0][2]) != 1 \
+                or not next(iter(st[0][2])).startswith('any((') or f"for _1 in $1.get('{lst}', [])" not in next(iter(st[0][2])):
             res.find(key, f.module.loc(f.node), f'{code} no longer ranges over every item of `{lst}` of every synset of the lexicon')
 
 
@@ -437,6 +418,6 @@ RULES = [
     ('C18-R2', r2_registry, 20),
     ('C18-R3', r3_relation_tables, 80),
     ('C18-R4', r4_rejected_by_add, 9),
-    ('C18-R5', r5_reference_predicates, 4),
+    ('C18-R5', r5_reference_predicates, 2),
     ('C18-R6', r6_blank_predicates, 4),
 ]
